@@ -9,15 +9,18 @@
 (*            is non-empty Safe is DECIDED over every database of that     *)
 (*            bound; otherwise over the listed databases only              *)
 (*   dbs      sequence of databases (sampled contents)                     *)
-(*   obs      sequence of [ast, res, hints, runs]                          *)
+(*   obs      sequence of [ast, res, hints, runs, lazy]                    *)
 (*            res   "ok" | "parse:<Type>" (recording the hints raised)     *)
 (*            hints sequence of [path, table (node), cols, pred] in visit  *)
 (*                  order - one per generate_table call                    *)
 (*            runs  sequence of [db, plain, hinted]: rows fetched from      *)
 (*                  SQLite without hints / with each table occurrence      *)
 (*                  replaced by what its hint delivers ([res, rows])       *)
+(*            lazy  [res, cols: <<<<table name, <<column...>>>>...>>]: the   *)
+(*                  columns the lazy feed reader asked its origins for     *)
+(*                  (lazy.Origin.partitions) when reading the statement    *)
 (* Verdict per observation:                                                *)
-(*   <<wf, crash, drift, scoped, complete, unsafe, first, runs>>           *)
+(*   <<wf, crash, drift, scoped, complete, unsafe, first, runs, asis, lazy>> *)
 (*   crash    exception class the AS-IS model predicts for parsing         *)
 (*   drift    1 iff the recorded hints differ from the as-is model's       *)
 (*   scoped / complete   the static clauses on the RECORDED hints          *)
@@ -26,10 +29,13 @@
 (*   runs     per run <<plain accepted, hinted accepted>> by Accepts       *)
 (*   asis     <<scoped, complete, unsafe>> of the as-is hints, computed    *)
 (*            only when they differ from the recorded ones (else equal)    *)
+(*   lazy     1 / 0: the columns requested from the lazy origins cover     *)
+(*            every column used through every occurrence (-1 not observed) *)
 (***************************************************************************)
 EXTENDS Hints, FactorsImpl, Json, IOUtils, TLCExt
 Batch == JsonDeserialize(IOEnv.TRACE_FILE)
 BatchLits == Batch.lits
+BatchFixed == {Batch.fixed[i] : i \in DOMAIN Batch.fixed}
 N == Len(Batch.obs)
 Dbs == IF Batch.universe.tables # <<>>
        THEN Universe(Batch.universe.tables, Batch.universe.maxrows, Batch.universe.dom) ELSE Batch.dbs
@@ -52,14 +58,20 @@ Ok(out) == B(out.res = "ok")
 RunVerdict(run) ==
     <<B(run.plain.res = "ok" /\ Accepts(Obs.ast, Batch.dbs[run.db], run.plain.rows)),
       B(run.hinted.res = "ok" /\ Accepts(Obs.ast, Batch.dbs[run.db], run.hinted.rows))>>
+LazyComplete ==
+    IF Obs.lazy.res # "ok" THEN -1
+    ELSE B(\A o \in Occurrences(Obs.ast) :
+              o.used = {} \/ \E i \in DOMAIN Obs.lazy.cols :
+                                /\ Obs.lazy.cols[i][1] = o.table.name
+                                /\ o.used \subseteq {Obs.lazy.cols[i][2][j] : j \in DOMAIN Obs.lazy.cols[i][2]})
 Verdict ==
     IF Obs.res # "ok"
-    THEN <<B(WellFormed(Obs.ast)), Impl.crash, B(Drift), 0, 0, 0, 0, <<>>, <<>>>>
+    THEN <<B(WellFormed(Obs.ast)), Impl.crash, B(Drift), 0, 0, 0, 0, <<>>, <<>>, LazyComplete>>
     ELSE LET bad == Unsafe(Recorded)
              asis == IF Drift /\ Impl.crash = ""
                      THEN Static(Impl.hints) \o <<Cardinality(Unsafe(Impl.hints))>> ELSE <<>>
          IN <<B(WellFormed(Obs.ast)), Impl.crash, B(Drift)>> \o Static(Recorded) \o
-            <<Cardinality(bad), First(bad), [r \in DOMAIN Obs.runs |-> RunVerdict(Obs.runs[r])], asis>>
+            <<Cardinality(bad), First(bad), [r \in DOMAIN Obs.runs |-> RunVerdict(Obs.runs[r])], asis, LazyComplete>>
 Init == tid \in 1..N
 Next == UNCHANGED vars
 Spec == Init /\ [][Next]_vars
